@@ -330,6 +330,27 @@ def run(ctx):
         if results[i]:
             ctx.sample({"scenario": line(scs[i]), "what": describe(scs[i]),
                         "events": [json.loads(x) for x in results[i] if '"Step"' not in x][:30]})
+    # ---------------------------------------------------------------- 5. the dead client's connection outlives it
+    # "... keeps serving its other clients": a client dies while the application still holds a reference on its connection
+    # (or its connection_closed asks to be run again), a new client connects meanwhile, the reference is dropped, the
+    # connection list is walked and the new client is talked to.  Harness and oracle of C04 (h_ipc_life.c, IpcLife.tla):
+    # callback order, list contents, freed memory (ASan).
+    from vlib.checks import ipclifegen
+    lexe = ctx.cc("h_ipc_life.c", "asan")
+    lprogs = []
+    for T in (0, 1):
+        S = ["Svc %d" % T]
+        for killer in (["Fork 0 1 1", "Wait 0", "Kill 0"], ["CConnect 0", "Step", "Step", "CContinue 0", "CDisc 0"]):
+            lprogs.append(S + ["Body created 1 0 Ref self"] + killer + ["Step", "Step", "CConnect 1", "Step", "Step", "CContinue 1", "Unref 1",
+                               "IterFirst", "IterNext", "UnrefPrev", "UnrefCur", "Event 2", "CSend 1 2", "Step", "CRecv 1", "RateLimit 0", "CDisc 1", "Step"])
+            lprogs.append(S + ["ClosedRet 1 1 1"] + killer + ["Step", "CConnect 1", "Step", "Step", "CContinue 1", "Jobs", "IterFirst", "IterNext",
+                               "UnrefPrev", "UnrefCur", "Jobs", "Event 2", "CSend 1 1", "Step", "CRecv 1", "SvcDestroy", "Drain"])
+    lprogs += [p for p in ipclifegen.directed() if any(x.startswith(("Fork", "Kill")) for x in p)]
+    lrng = random.Random(ctx.seed * 77 + 1)
+    lprogs += [ipclifegen.program(lrng) for _ in range(150 if ctx.quick else 1500)]
+    ctx.exec_validate(lexe, lprogs, lambda p: p, "IpcLifeTrace.tla", "IpcLifeTrace.cfg", nshards=4, label="c03-life", timeout=1200)
+    ctx.cov["outliving_connection_programs"] = len(lprogs)
+
     ctx.assumptions += [
         "crash points are the boundaries of the libc calls listed in harness/shim/wrap.list as made by the library inside the operation; a process can also stop between two instructions that are not separated by such a call (e.g. between two stores into the shared ring) - those points are covered only through the call before and after",
         "the surviving server is stepped by the harness through its own qb_ipcs_poll_handlers table (one thread); four schedules per crash point (fresh / stale / drained / stale+1), not every interleaving",
